@@ -11,7 +11,7 @@ import (
 func init() {
 	register(&propDef{
 		ID:       "C09",
-		Explain:  "Decided (structural necessary conditions; model equivalence with a prefix-free map is NOT decided): sorted walks and String() never act in map iteration order (keys collected, sorted, then visited; no visitor call or recursion inside a range over a map); internalDelete's selection: a leaf reached with an exhausted path or one trailing glob is always offered to the condition (no early exit in front of the terminal/glob test) and is removed, reported and handed to the callback exactly when the condition accepts it; pruning: a child is deleted from its parent's map only after its recursive call reported it removable, a branch reached through a glob reports itself removable exactly when it has become empty (evaluated at 0/1 remaining children, with and without remaining glob elements), WalkDeleted/DeleteConditional clear the root only on that flag; an empty node (nil) is never offered to the condition; visitors are invoked at most once per node activation; Walk/WalkSorted hand every child its own copy of the path; Delete passes a constant-true condition.",
+		Explain:  "Decided (structural necessary conditions; model equivalence with a prefix-free map is NOT decided): sorted walks and String() never act in map iteration order (keys collected, sorted, then visited; no visitor call or recursion inside a range over a map); internalDelete's selection: a leaf reached with an exhausted path or one trailing glob is always offered to the condition (no early exit in front of the terminal/glob test) and is removed, reported and handed to the callback exactly when the condition accepts it; pruning: a child is deleted from its parent's map only after its recursive call reported it removable, a branch reached through a glob reports itself removable exactly when it has become empty (evaluated at 0/1 remaining children, with and without remaining glob elements), WalkDeleted/DeleteConditional clear the root only on that flag; an empty node (nil) is never offered to the condition; visitors are invoked at most once per node activation; Walk/WalkSorted hand every child its own copy of the path; Delete passes a constant-true condition. Also decided: with retDeletedPaths set the paths reported by a child's visit reach the result whether or not the child became removable, and the explicit-child arm returns the child's list; Walk/WalkSorted visit a leaf stored at the root exactly once with its own value and do not visit an empty root.",
 		NotCover: "model equivalence over operation sequences, atomicity of a failed Add, agreement of Delete's and Query's match relation beyond the leaf/glob cases above",
 		Run:      runC09,
 	})
